@@ -343,14 +343,14 @@ Proof.
     eapply tot_bind_any; [exact SP|apply tot_add_leaf|]. intros vid.
     apply t_block; [intros; exact I|]. intros s p. unfold P in p. cbn [stmt_size] in p. rewrite stmts_fix_eq in p.
     eapply fits_sub; [|exact p]; lia.
-  - (* if *) destruct el as [e|]; cbn [stmt_size] in LE; rewrite ?stmts_fix_eq in LE.
+  - (* if *) destruct el as [e|]; cbn [stmt_size] in LE; rewrite (stmts_fix_eq th) in LE; try rewrite (stmts_fix_eq e) in LE.
     + eapply tot_seq; [exact SP|apply t_index_value; [exact SP|lia]|].
       apply tot_iterM; [exact SP|]. intros body Hb.
-      apply t_block; [intros; exact I|]. intros s p. unfold P in p. cbn [stmt_size] in p. rewrite ?stmts_fix_eq in p.
+      apply t_block; [intros; exact I|]. intros s p. unfold P in p. cbn [stmt_size] in p. rewrite (stmts_fix_eq th), (stmts_fix_eq e) in p.
       destruct Hb as [<-|[<-|[]]]; (eapply fits_sub; [|exact p]; lia).
     + eapply tot_seq; [exact SP|apply t_index_value; [exact SP|lia]|].
       apply tot_iterM; [exact SP|]. intros body Hb.
-      apply t_block; [intros; exact I|]. intros s p. unfold P in p. cbn [stmt_size] in p. rewrite ?stmts_fix_eq in p.
+      apply t_block; [intros; exact I|]. intros s p. unfold P in p. cbn [stmt_size] in p. rewrite (stmts_fix_eq th) in p.
       destruct Hb as [<-|[]]. eapply fits_sub; [|exact p]; lia.
   - (* let *) cbn [stmt_size] in LE. rewrite stmts_fix_eq in LE.
     eapply tot_seq; [exact SP|apply t_values; [exact SP|unfold vsum; lia]|].
@@ -390,8 +390,9 @@ Proof.
   assert (T : tot (fits files (sum_sizes stmt_size root) (ws_fuel w)) (iterM (index_stmt files (ws_fuel w)) root) anyv).
   { apply t_stmts; [apply t_index_stmt|apply stable_fits|auto]. }
   assert (P0 : fits files (sum_sizes stmt_size root) (ws_fuel w) st0).
-  { unfold fits, pot, files, ws_fuel. rewrite F. cbn [pot_from st0 s_indexed existsb N.eqb orb].
-    pose proof (pot_total rest 1 [0]). rewrite sum_cons. unfold fsize in *. unfold sum_sizes at 2 3 in H |- *.
-    change (fun f : list stmt => S (sum_sizes stmt_size f)) with (fun b : list stmt => S (sum_sizes stmt_size b)). lia. }
+  { unfold fits, pot, files, ws_fuel. rewrite F. rewrite sum_cons.
+    change (sum_sizes (fun f : list stmt => S (sum_sizes stmt_size f)) rest) with (sum_sizes fsize rest).
+    change (s_indexed st0) with [0]. cbn [pot_from existsb]. change (0 =? 0) with true. cbn [orb].
+    pose proof (pot_total rest (0 + 1) [0]). lia. }
   destruct (T st0 good_st0 P0) as ((B & _) & _). exact B.
 Qed.
